@@ -120,18 +120,18 @@ Fixpoint veqb (a b : val) {struct a} : bool :=
 Definition numval (v : val) : option Z :=
   match v with VInt z | VFlt z => Some z | VBool b => Some (if b then 1%Z else 0%Z) | _ => None end.
 
+(* The result of a user function is an opaque object; the harness represents it by its canonical text, so two
+   results are == exactly when they are the same term (the text of 1, 1.0 and True differs). *)
 Fixpoint pyeq (a b : val) {struct a} : bool :=
   let fix vl (x y : list val) : bool :=
     match x, y with [], [] => true | p :: x', q :: y' => pyeq p q && vl x' y' | _, _ => false end in
-  let fix kl (x y : list (string * val)) : bool :=
-    match x, y with [], [] => true | (s, p) :: x', (t, q) :: y' => String.eqb s t && pyeq p q && kl x' y' | _, _ => false end in
   match a, b with
   | VStr s, VStr t => String.eqb s t
   | VNone, VNone => true
   | VNat m, VNat k => Nat.eqb m k
   | VFun f, VFun g => String.eqb f g
   | VTuple p, VTuple q => vl p q
-  | VApp f p k, VApp g q l => String.eqb f g && vl p q && kl k l
+  | VApp _ _ _, VApp _ _ _ => veqb a b
   | VDict p, VDict q => veqb (VDict p) (VDict q)
   | _, _ => match numval a, numval b with Some m, Some k => Z.eqb m k | _, _ => false end
   end.
